@@ -14,6 +14,7 @@ THEOREMS = [
 	'Httoop.Compose.chunked_reads_back',
 	'Httoop.Compose.bodiless_no_octets',
 	'Httoop.Compose.prepareRequest_idem',
+	'Httoop.Compose.prepareResponse_idem',
 	'Httoop.Compose.prepareRequest_spec',
 	'Httoop.Compose.prepareResponse_spec',
 	'Httoop.Compose.setChunked_spec',
@@ -250,6 +251,6 @@ def finding_still_fails(k):
 
 LEVEL_TEXT = ('Theorems over EVERY message state (any header collection, any list of content pieces, any flags left by earlier calls) for the model of the framing core of prepare(): after prepare(), chunked in the header fields excludes Content-Length; '
 	'a Content-Length (other than on a response to HEAD) is the decimal count of the octets that follow the header section, which are then not chunk-framed; with chunked framing the octets are the RFC 7230 chunk writer applied to the content (int("%x" % n, 16) = n for all n), '
-	'which the library\'s reader turns back into the content for any number and size of pieces; 1xx/204/205/304 and responses to HEAD are followed by no octets; a second prepare() of a request changes nothing. '
+	'which the library\'s reader turns back into the content for any number and size of pieces; 1xx/204/205/304 and responses to HEAD are followed by no octets; a second prepare() changes nothing - for requests, and for responses other than to HEAD (finding F46 is exactly the exception). '
 	'Model tied to the code by correspondence on framing header values and body octets for every generated message and operation order; the complete output is read by an independent RFC 7230 reader (oracle).')
-LEVEL_NOTE = 'Trusted: Lean kernel; correspondence harness; the header bookkeeping outside the framing core and the non-destructiveness of body sources (file positions, generators) are decided by the oracle on the real code. Idempotence of prepare() for responses is checked by the correspondence (operation orders), proved only for requests. Defects found by this check were repaired (F47, F48); F23 and F46 are recorded findings.'
+LEVEL_NOTE = 'Trusted: Lean kernel; correspondence harness; the header bookkeeping outside the framing core and the non-destructiveness of body sources (file positions, generators) are decided by the oracle on the real code. Defects found by this check were repaired (F47, F48); F23 and F46 are recorded findings.'
